@@ -19,13 +19,20 @@ class Driver:
         s.p = subprocess.Popen([binpath], stdin=subprocess.PIPE, stdout=subprocess.PIPE, stderr=subprocess.PIPE, env=e, bufsize=0)
         s.fin, s.fout = s.p.stdin.fileno(), s.p.stdout.fileno()
         os.set_blocking(s.fin, False)
-        s.out = bytearray(); s.parser = FrameParser(); s.msgs = []; s.sent = 0; s.queued = 0
+        s.out = bytearray(); s.parser = FrameParser(); s.msgs = []; s.sent = 0; s.queued = 0; s.total = 0; s.written = 0; s.req_ends = []
         s.max_inflight = 0; s.blocked_writes = 0; s.inflight_hist = set()
         s.write({"jsonrpc": "2.0", "id": 0, "method": "initialize", "params": {"capabilities": caps}})
         s.write({"jsonrpc": "2.0", "method": "initialized", "params": {}})
         s.nreq = 0; s.nresp = 0
 
-    def write(s, obj): s.out += frame(obj); s.queued += 1
+    def write(s, obj):
+        b = frame(obj); s.out += b; s.queued += 1; s.total += len(b)
+        if "id" in obj: s.req_ends.append(s.total)      # stream offset at which this request is completely written
+
+    def inflight(s):
+        """requests completely written to the server minus responses received"""
+        import bisect
+        return bisect.bisect_right(s.req_ends, s.written) - sum(1 for m in s.msgs if "id" in m and "method" not in m)
 
     def pump(s, allow_read, timeout=0.0):
         """one select round; returns False when the server closed its output"""
@@ -35,7 +42,7 @@ class Driver:
         r, w, _ = select.select(rl, wl, [], timeout)
         if w:
             try:
-                n = os.write(s.fin, bytes(s.out[:65536])); del s.out[:n]
+                n = os.write(s.fin, bytes(s.out[:65536])); del s.out[:n]; s.written += n
             except BlockingIOError:
                 s.blocked_writes += 1
             except BrokenPipeError:
@@ -69,7 +76,7 @@ def scenario(rng, nops, ndocs):
     if "file:///c20/a.spl" in uris and "untitled:///c20/a.spl" not in uris and rng.random() < .7: uris[-1] = "untitled:///c20/a.spl"
     npub = {}
     big = rng.random() < .3
-    filler = "".join("proc filler%d(a: int, ref b: int) {\n    var c: int;\n    c := a * %d + b;\n    if (c < a) {\n        b := c;\n    } else {\n        b := a;\n    }\n}\n\n" % (j, j) for j in range(rng.choice([150, 400]))) if big else ""
+    filler = "".join("proc filler%d(a: int, ref b: int) {\n    var c: int;\n    c := a * %d + b;\n    if (c < a) {\n        b := c;\n    } else {\n        b := a;\n    }\n}\n\n" % (j, j) for j in range(rng.choice([100, 250]))) if big else ""
     for i in range(nops):
         u = rng.choice(uris); c = rng.random()
         cur = docs.get(u)
@@ -175,9 +182,7 @@ def run_history(part, binpath, rng, nops, sc_seed):
                 allow = now >= stall_until
             else: allow = True
             alive = d.pump(allow, 0.01)
-            got = sum(1 for m in d.msgs if "id" in m and "method" not in m)
-            sent_reqs = 0
-            d.max_inflight = max(d.max_inflight, len(reads) - got if not d.out else 0)
+            d.max_inflight = max(d.max_inflight, d.inflight())
         if not alive and not done():
             err = d.p.stderr.read().decode(errors="replace")[-300:] if d.p.poll() is not None else ""
             part.fail("%s: the server closed its output before answering everything (%d messages received) %s" % (what, len(d.msgs), err), sc); return
@@ -276,7 +281,7 @@ def worker(args):
 
 def run(ctx):
     server_bin("rel")
-    nh, nops = (6, 250) if ctx.quick else (150, 500)
+    nh, nops = (4, 250) if ctx.quick else (150, 500)
     for p in pmap(worker, [("%s/%d" % (ctx.seed, i), nh, nops, "rel") for i in range(NCPU)]): ctx.merge(p)
     if not ctx.quick:
         server_bin("tsan"); before = ctx.extra.get("counters", {}).get("histories", 0)
